@@ -1154,7 +1154,14 @@ func (m *Nitro) LoadFromDisk(dir string, concurr int, callb ItemCallback) (*Snap
 		}
 	}
 
+	oldStore := m.store
 	m.store = b.Assemble(segments...)
+	if m.useMemoryMgmt {
+		// The instance's initial (empty) store has been replaced by the
+		// assembled one: release its sentinel nodes.
+		oldStore.FreeNode(oldStore.HeadNode(), &oldStore.Stats)
+		oldStore.FreeNode(oldStore.TailNode(), &oldStore.Stats)
+	}
 
 	// Delta processing
 	if m.useDeltaFiles {
